@@ -1074,7 +1074,9 @@ where
         reply_receiver: CmdReplyReceiver,
         key_num: usize,
     ) -> TaskResult {
-        let keys: Vec<_> = (3..3 + key_num)
+        // `numkeys` comes from the client. Never iterate beyond the command itself.
+        let cmd_len = cmd_ctx.get_cmd().get_command_len().unwrap_or(0);
+        let keys: Vec<_> = (3..3usize.saturating_add(key_num).min(cmd_len))
             .filter_map(|i| cmd_ctx.get_cmd().get_command_element(i))
             .map(|b| b.to_vec())
             .collect();
